@@ -51,7 +51,8 @@ pub(crate) fn sur_request_line(line: &[u8]) -> Result<RequestLine, RequestError>
     Ok(RequestLine {
         method,
         uri: Uri {
-            string: String::new(),
+            // heap string: see headers::verif_kani::nonconst_string
+            string: String::from("/"),
         },
         http_version,
     })
@@ -70,7 +71,8 @@ pub(crate) fn mk_request_line(method: Method, http_version: Version) -> RequestL
     RequestLine {
         method,
         uri: Uri {
-            string: String::new(),
+            // heap string: see headers::verif_kani::nonconst_string
+            string: String::from("/"),
         },
         http_version,
     }
